@@ -123,6 +123,9 @@ async fn run_case(c: Case) -> Outcome {
         }
     }
     let mut rx = s.verif_subscribe();
+    // the rates each peer's task last reported (download, upload): "measured rate" is judged by these, not by what the
+    // manager chose to keep
+    let mut reported: BTreeMap<String, (u32, u32)> = BTreeMap::new();
     let mut peers: BTreeMap<String, PeerView> = BTreeMap::new();
     let mut next_id = 0usize;
     let mut bitfields_before_first_rotation = 0usize;
@@ -215,8 +218,9 @@ async fn run_case(c: Case) -> Outcome {
             }
             Op::Stats(i, d, u) => {
                 if let Some(addr) = pick(&peers, *i) {
+                    reported.insert(addr.clone(), (*d, *u));
                     let _ = s
-                        .verif_handle_peer_cmd(PeerCmd::SyncStats { addr, downloaded_rate: Some(*d), uploaded_rate: Some(*u), unexpected_blocks: 0 })
+                        .verif_handle_peer_cmd(PeerCmd::SyncStats { addr, downloaded_rate: Some(*d), uploaded_rate: Some(*u), unexpected_blocks: (*d as usize ^ *u as usize) % 3 })
                         .await;
                 }
             }
@@ -229,8 +233,9 @@ async fn run_case(c: Case) -> Outcome {
                     // few distinct values => ties
                     let d = (x % 4) as u32 * 100;
                     let u = ((x >> 8) % 4) as u32 * 100;
+                    reported.insert(addr.clone(), (d, u));
                     let _ = s
-                        .verif_handle_peer_cmd(PeerCmd::SyncStats { addr, downloaded_rate: Some(d), uploaded_rate: Some(u), unexpected_blocks: 0 })
+                        .verif_handle_peer_cmd(PeerCmd::SyncStats { addr, downloaded_rate: Some(d), uploaded_rate: Some(u), unexpected_blocks: ((x >> 20) % 4 == 0) as usize })
                         .await;
                 }
             }
@@ -265,6 +270,7 @@ async fn run_case(c: Case) -> Outcome {
                 if let Some(addr) = pick(&peers, *i) {
                     s.verif_kill_peer(&addr).await;
                     peers.remove(&addr);
+                    reported.remove(&addr);
                 }
             }
         }
@@ -307,7 +313,22 @@ async fn run_case(c: Case) -> Outcome {
         }
         // B2
         if let Some((_before, fresh)) = rotation_done {
-            let rate_of = |p: &VerifPeerSnapshot| if c.seeding { p.download_rate.unwrap_or(0) } else { p.uploaded_rate.unwrap_or(0) };
+            let rate_of = |p: &VerifPeerSnapshot| match reported.get(&p.addr) {
+                Some((d, u)) => {
+                    if c.seeding {
+                        *d
+                    } else {
+                        *u
+                    }
+                }
+                None => {
+                    if c.seeding {
+                        p.download_rate.unwrap_or(0)
+                    } else {
+                        p.uploaded_rate.unwrap_or(0)
+                    }
+                }
+            };
             let holders: Vec<&VerifPeerSnapshot> = snap.peers.iter().filter(|p| !p.am_choked && !fresh.contains(&p.addr)).collect();
             for h in &holders {
                 if !h.interested {
@@ -502,7 +523,7 @@ pub fn check_wire(c: &WCase) -> Outcome {
 pub fn def() -> PropDef {
     PropDef {
         id: "C14",
-        rule: "(4 % of the command cases start with 44-255 peers, all with measured rates, 8-31 of them interested, and two rotations) sub commands: a history of up to 120 manager commands {peer added, bitfield arrives, interested, not-interested, stats(rate_down, rate_up) with ties, stats for all, rotate, peer leaves} over 0-25 peers in leeching or seeding mode, each passed to the real handle_peer_cmd / timeout_change_conn_state (hooks). Oracle after every step: <= 11 peers unchoked, <= 10 non-optimistic unchoked; the fold of what each peer was told (with_am_unchoked replies, am_choked_map broadcasts) equals am_choked; after every rotation that is carried out: regular slot holders are interested, no choked interested peer has a strictly higher rate (upload rate when leeching, download rate when seeding, as the manager documents) than a holder nor is left choked while slots are free, peers without interest are choked (optimistic one excepted). Sub wire: up to 16 real connections on the swarm runtime (handshake, bitfield, interest changes, leaves, the real rotation after 21 virtual seconds): the fold of the Choke/Unchoke frames each peer actually received equals am_choked, and the slot bounds hold. Non-trivial (commands) = >= 12 bitfields before the first rotation, or a rotation with > 10 interested peers and a rate tie across the cut; distinct by hash of the case.",
+        rule: "(stats reports carry an `unexpected blocks` count of 0-2; the measured rate is what the peer's task last reported, whatever the manager kept) (4 % of the command cases start with 44-255 peers, all with measured rates, 8-31 of them interested, and two rotations) sub commands: a history of up to 120 manager commands {peer added, bitfield arrives, interested, not-interested, stats(rate_down, rate_up) with ties, stats for all, rotate, peer leaves} over 0-25 peers in leeching or seeding mode, each passed to the real handle_peer_cmd / timeout_change_conn_state (hooks). Oracle after every step: <= 11 peers unchoked, <= 10 non-optimistic unchoked; the fold of what each peer was told (with_am_unchoked replies, am_choked_map broadcasts) equals am_choked; after every rotation that is carried out: regular slot holders are interested, no choked interested peer has a strictly higher rate (upload rate when leeching, download rate when seeding, as the manager documents) than a holder nor is left choked while slots are free, peers without interest are choked (optimistic one excepted). Sub wire: up to 16 real connections on the swarm runtime (handshake, bitfield, interest changes, leaves, the real rotation after 21 virtual seconds): the fold of the Choke/Unchoke frames each peer actually received equals am_choked, and the slot bounds hold. Non-trivial (commands) = >= 12 bitfields before the first rotation, or a rotation with > 10 interested peers and a rate tie across the cut; distinct by hash of the case.",
         assumptions: &[
             "every command used can be emitted by a connection task at any time (RecvBitfield, RecvInterested, RecvNotInterested, SyncStats, KillReq); PrepareKill replies are followed by the peer's removal as the task would do",
             "which measured rate ranks peers (uploaded while leeching, downloaded while seeding) is taken from the manager's own documented choice",
